@@ -86,12 +86,13 @@ type Ctx struct {
 	consts map[string]Sort
 	funcs  map[string]*FuncDecl
 	fresh  map[string]int
-	axioms map[string][]*Term // axioms keyed by the function symbol that triggers their inclusion
+	axioms map[string][]*Term // axioms keyed by the "+"-joined function symbols that must all occur for inclusion
 	sorts  map[string]bool    // declared uninterpreted sorts
+	rewrite map[int]*Term     // term id -> replacement (configuration enumeration)
 }
 
 func NewCtx() *Ctx {
-	return &Ctx{tab: map[string]*Term{}, consts: map[string]Sort{}, funcs: map[string]*FuncDecl{}, fresh: map[string]int{}, axioms: map[string][]*Term{}, sorts: map[string]bool{}}
+	return &Ctx{tab: map[string]*Term{}, consts: map[string]Sort{}, funcs: map[string]*FuncDecl{}, fresh: map[string]int{}, axioms: map[string][]*Term{}, sorts: map[string]bool{}, rewrite: map[int]*Term{}}
 }
 
 func (c *Ctx) intern(t *Term) *Term {
@@ -210,7 +211,13 @@ func (t *Term) SignedVal() *big.Int {
 // ---- generic application ----
 
 func (c *Ctx) app(op string, s Sort, args ...*Term) *Term {
-	return c.intern(&Term{op: op, kind: kApp, args: args, sort: s})
+	t := c.intern(&Term{op: op, kind: kApp, args: args, sort: s})
+	if len(c.rewrite) > 0 {
+		if r, ok := c.rewrite[t.id]; ok {
+			return r
+		}
+	}
+	return t
 }
 
 // App applies a declared (uninterpreted or defined) function.
@@ -240,6 +247,8 @@ func (c *Ctx) DeclareFun(name string, params []Sort, ret Sort) {
 	c.funcs[name] = &FuncDecl{Name: name, Params: params, Ret: ret}
 }
 
+// AddAxiom registers an axiom that is included in a script only if every function named in
+// trigger ("f" or "f+g") occurs in the obligation itself (not merely in other axioms).
 func (c *Ctx) AddAxiom(trigger string, ax *Term) { c.axioms[trigger] = append(c.axioms[trigger], ax) }
 
 // ---- booleans ----
@@ -1077,13 +1086,34 @@ func (c *Ctx) BuildScript(assumptions []*Term, goal *Term, getValues []*Term, op
 			collect(d.Body)
 		}
 		fnOrder = append(fnOrder, name)
-		for _, ax := range c.axioms[name] {
-			axiomRoots = append(axiomRoots, ax)
-			collect(ax)
-		}
 	}
 	for _, r := range roots {
 		collect(r)
+	}
+	// axioms whose trigger functions all occur in the obligation proper
+	inRoots := map[string]bool{}
+	for n := range sb.usedFns {
+		inRoots[n] = true
+	}
+	var trigKeys []string
+	for k := range c.axioms {
+		trigKeys = append(trigKeys, k)
+	}
+	sort.Strings(trigKeys)
+	for _, k := range trigKeys {
+		ok := true
+		for _, f := range strings.Split(k, "+") {
+			if !inRoots[f] {
+				ok = false
+			}
+		}
+		if !ok {
+			continue
+		}
+		for _, ax := range c.axioms[k] {
+			axiomRoots = append(axiomRoots, ax)
+			collect(ax)
+		}
 	}
 
 	var out strings.Builder
